@@ -20,12 +20,19 @@ THEOREMS = [f"Nice.Props.C10.{t}" for t in (
     "C10_rbuf_bounded",
     "C10_inv_preserved_partial",
     "C10_respects_window_counterexample",
-    "C10_respects_window_partial")]
+    "C10_respects_window_partial")] + [f"Nice.Props.C10Kernels.{t}" for t in (
+    "C10_model_has_sent_fin_is_code", "C10_model_has_received_fin_is_code", "C10_model_has_received_fin_ack_is_code",
+    "C10_fin_ack_implies_both_fins", "C10_open_states_have_no_fin", "C10_model_write_remaining_is_code",
+    "C10_model_buffered_is_code", "C10_buffered_plus_room_is_capacity")]
 TRUSTED = [
     "Lean 4 kernel; axioms allowed: propext, Classical.choice, Quot.sound (audited by #print axioms on every run)",
     "hand-written model Nice/Model/PTcp.lean of agent/pseudotcp.c, tied by the ptcp_drv differential stream: every "
     "emitted packet byte for byte, every callback, return value, errno and the whole private state after every operation",
     "constants, PACKET_MAXIMUMS, the set_state whitelist and time_diff/bound/LARGER.. kernels are regenerated from the source",
+    "pseudo_tcp_state_has_sent_fin / _has_received_fin / _has_received_fin_ack and pseudo_tcp_fifo_get_buffered / "
+    "_get_write_remaining are REGENERATED from agent/pseudotcp.c on every run (tools/extract.py KERNELS / FIELD_KERNELS) and the "
+    "model's hasSentFin / hasReceivedFin / hasReceivedFinAck / Fifo.getBuffered / Fifo.getWriteRemaining are PROVED equal to them "
+    "(Props/C10Kernels), so for these five functions the model-code tie is a theorem over a translation, not a sample",
     "harness zero-fills the fifo rings (g_slice_alloc is uninitialised memory in C); C-level memory safety / UB is "
     "observed under ASan/UBSan on the generated sessions, not proved",
 ]
